@@ -366,3 +366,144 @@ Example C14_witness_refuted :
   run_inline nat_gen KStep n_lin (c_take 1) 500 = OutOfFuel /\
   run_inline nat_gen (KRep [7]) n_lin c_first 500 = OutOfFuel.
 Proof. vm_compute. repeat split; reflexivity. Qed.
+
+(* ==== theorem-quality audit, second pass: repeat sources with ANY consumer, filter stages with
+   ANY predicate, multi-source shapes over repeat (proofs: Ops/SyncRepFacts.v) ==== *)
+From RxVerif Require Import Ops.SyncRepFacts.
+
+(* C14_lin_rep without its value-blind hypothesis: the consumer is run on the cyclic stream of the
+   repeated list ([cyc v l] of Ops/SyncRepFacts.v, written out here) *)
+Theorem C14_lin_rep_any_consumer : forall gen C v l k fuel,
+  stops_at C (fun i => nth (i mod length (v :: l)) (v :: l) v) (c_init C) 0 k -> (3 * k + 5 <= fuel)%nat ->
+  exists out, run_default gen (KRep (v :: l)) n_lin C fuel = Returned k out true.
+Proof. exact lin_rep_any. Qed.
+Print Assumptions C14_lin_rep_any_consumer.
+
+Theorem C14_take_while_rep : forall gen pr incl v l k fuel,
+  (k < length (v :: l))%nat ->
+  (forall j, (j < k)%nat -> pr (nth j (v :: l) v) = true) -> pr (nth k (v :: l) v) = false ->
+  (3 * k + 8 <= fuel)%nat ->
+  exists out, run_default gen (KRep (v :: l)) n_lin (c_take_while pr incl) fuel = Returned (S k) out true.
+Proof. exact take_while_rep. Qed.
+Print Assumptions C14_take_while_rep.
+
+Theorem C14_map_take_rep : forall gen f v l n fuel, (3 * n + 8 <= fuel)%nat ->
+  exists out, run_default gen (KRep (v :: l)) n_lin (c_map f (c_take (S n))) fuel = Returned (S n) out true.
+Proof. exact map_take_rep. Qed.
+Print Assumptions C14_map_take_rep.
+
+Theorem C14_map_take_while_rep : forall gen f pr incl v l k fuel,
+  (k < length (v :: l))%nat ->
+  (forall j, (j < k)%nat -> pr (f (nth j (v :: l) v)) = true) -> pr (f (nth k (v :: l) v)) = false ->
+  (3 * k + 8 <= fuel)%nat ->
+  exists out, run_default gen (KRep (v :: l)) n_lin (c_map f (c_take_while pr incl)) fuel = Returned (S k) out true.
+Proof. exact map_take_while_rep. Qed.
+Print Assumptions C14_map_take_while_rep.
+
+(* C14_filter_stage for ANY predicate, as an equivalence: the filtered pipeline completes after
+   pulling exactly S n elements iff the last of them passes the predicate and the consumer completes
+   exactly at the last element of the filtered stream [filtered pr gen i (S n)] of those elements *)
+Theorem C14_filter_stage_any : forall gen pr C n s i,
+  stops_at (c_filter pr C) gen s i (S n) <->
+  pr (gen (i + n)%nat) = true /\
+  stops_at C (fun j => nth j (filter pr (map gen (seq i (S n)))) 0) s 0
+           (length (filter pr (map gen (seq i (S n))))).
+Proof. exact stops_filter_iff. Qed.
+Print Assumptions C14_filter_stage_any.
+
+(* multi-source shapes over repeat, ANY consumer that completes on the cyclic stream *)
+Theorem C14_merge_rep : forall gen (b : bool) C v l k fuel,
+  stops_at C (cyc v l) (c_init C) 0 k -> (3 * k + 8 <= fuel)%nat ->
+  exists out, run_default gen (KRep (v :: l)) (n_merge (if b then [0; 1] else [1; 0])) C fuel = Returned k out true.
+Proof. exact merge_rep_any. Qed.
+Print Assumptions C14_merge_rep.
+
+Theorem C14_flat_outer_rep : forall gen C v l k fuel,
+  stops_at C (cyc v l) (c_init C) 0 k -> (3 * k + 8 <= fuel)%nat ->
+  exists out, run_default gen (KRep (v :: l)) n_flat_outer C fuel = Returned k out true.
+Proof. exact flat_outer_rep_any. Qed.
+Print Assumptions C14_flat_outer_rep.
+
+Theorem C14_switch_outer_rep : forall gen C v l k fuel,
+  stops_at C (cyc v l) (c_init C) 0 k -> (3 * k + 8 <= fuel)%nat ->
+  exists out, run_default gen (KRep (v :: l)) n_switch_outer C fuel = Returned k out true.
+Proof. exact switch_outer_rep_any. Qed.
+Print Assumptions C14_switch_outer_rep.
+
+Theorem C14_concat_after_rep : forall gen C v l k fuel,
+  stops_at C (cyc v l) (c_init C) 0 k -> (3 * k + 8 <= fuel)%nat ->
+  exists out, run_default gen (KRep (v :: l)) (n_concat false) C fuel = Returned k out true.
+Proof. exact concat_after_rep_any. Qed.
+Print Assumptions C14_concat_after_rep.
+
+Theorem C14_amb_rep : forall gen (b : bool) C v l k fuel,
+  stops_at C (cyc v l) (c_init C) 0 k -> (3 * k + 8 <= fuel)%nat ->
+  exists out, run_default gen (KRep (v :: l)) (n_amb b) C fuel = Returned k out true.
+Proof. exact amb_rep_any. Qed.
+Print Assumptions C14_amb_rep.
+
+Theorem C14_wlf_main_rep : forall gen C v l k fuel,
+  stops_at C (cyc v l) (c_init C) 0 k -> (3 * k + 8 <= fuel)%nat ->
+  exists out, run_default gen (KRep (v :: l)) (n_wlf true) C fuel = Returned k out true.
+Proof. exact wlf_main_rep_any. Qed.
+Print Assumptions C14_wlf_main_rep.
+
+Theorem C14_combine_of_s_rep : forall gen C v l k fuel,
+  stops_at C (cyc v l) (c_init C) 0 k -> (3 * k + 8 <= fuel)%nat ->
+  exists out, run_default gen (KRep (v :: l)) (n_combine false) C fuel = Returned k out true.
+Proof. exact combine_of_s_rep_any. Qed.
+Print Assumptions C14_combine_of_s_rep.
+
+Theorem C14_combine_s_of_rep : forall gen C v l k fuel,
+  stops_at C (cyc v l) (c_init C) 0 k -> (3 * k + 8 <= fuel)%nat ->
+  exists out, run_default gen (KRep (v :: l)) (n_combine true) C fuel = Returned k out true.
+Proof. exact combine_s_of_rep_any. Qed.
+Print Assumptions C14_combine_s_of_rep.
+
+Theorem C14_take_until_rep : forall gen C v l fuel, (4 <= fuel)%nat ->
+  run_default gen (KRep (v :: l)) n_take_until C fuel = Returned 0 0 true.
+Proof. exact take_until_rep. Qed.
+Print Assumptions C14_take_until_rep.
+
+Theorem C14_wlf_other_rep : forall gen C v l fuel, (5 <= fuel)%nat ->
+  run_default gen (KRep (v :: l)) (n_wlf false) C fuel = Returned 0 0 true.
+Proof. exact wlf_other_rep. Qed.
+Print Assumptions C14_wlf_other_rep.
+
+(* ---- the new hypotheses are satisfiable; the numbers the implementation shows ---- *)
+(* take_while whose predicate is false at the third element of the repeated list *)
+Example C14_witness_take_while_repeat :
+  stops_at (c_take_while (fun v => v <? 3) false) (cyc 1 [2; 3; 4]) tt 0 3 /\
+  run_default nat_gen (KRep [1; 2; 3; 4]) n_lin (c_take_while (fun v => v <? 3) false) 20 = Returned 3 2 true.
+Proof. vm_compute. split; reflexivity. Qed.
+
+(* repeat_value(7).map(+1).take(3) *)
+Example C14_witness_map_take_repeat_value :
+  stops_at (c_map (fun v => v + 1) (c_take 3)) (cyc 7 []) 3%nat 0 3 /\
+  run_default nat_gen (KRep [7]) n_lin (c_map (fun v => v + 1) (c_take 3)) 20 = Returned 3 3 true.
+Proof. vm_compute. split; reflexivity. Qed.
+
+(* a value-dependent consumer that needs a second round of the list: repeat(of(1,2)).filter(==2).take(2) *)
+Example C14_witness_filter_take_repeat :
+  stops_at (c_filter (fun v => v =? 2) (c_take 2)) (cyc 1 [2]) 2%nat 0 4 /\
+  run_default nat_gen (KRep [1; 2]) n_lin (c_filter (fun v => v =? 2) (c_take 2)) 30 = Returned 4 2 true.
+Proof. vm_compute. split; reflexivity. Qed.
+
+(* right-hand side of C14_filter_stage_any with a predicate that fails on some elements:
+   filter(even).take(2) over 0,1,2,... pulls 3 elements *)
+Example C14_witness_filter_stage_any :
+  filter (fun v => v mod 2 =? 0) (map nat_gen (seq 0 3)) = [0; 2] /\
+  (fun v => v mod 2 =? 0) (nat_gen (0 + 2)) = true /\
+  stops_at (c_take 2) (fun j => nth j (filter (fun v => v mod 2 =? 0) (map nat_gen (seq 0 3))) 0) 2%nat 0
+           (length (filter (fun v => v mod 2 =? 0) (map nat_gen (seq 0 3)))) /\
+  run_default nat_gen KIter n_lin (c_filter (fun v => v mod 2 =? 0) (c_take 2)) 10 = Returned 3 2 true.
+Proof. vm_compute. repeat split; reflexivity. Qed.
+
+(* multi-source shapes over repeat(of(1,2)) with a value-dependent consumer *)
+Example C14_witness_multi_repeat :
+  stops_at (c_take_while (fun v => v <? 2) true) (cyc 1 [2]) tt 0 2 /\
+  run_default nat_gen (KRep [1; 2]) (n_merge [0; 1]) (c_take_while (fun v => v <? 2) true) 30 = Returned 2 2 true /\
+  run_default nat_gen (KRep [1; 2]) (n_combine true) (c_take_while (fun v => v <? 2) true) 30 = Returned 2 2 true /\
+  run_default nat_gen (KRep [1; 2]) (n_concat false) (c_take_while (fun v => v <? 2) true) 30 = Returned 2 2 true /\
+  run_default nat_gen (KRep [1; 2]) n_take_until c_all 30 = Returned 0 0 true.
+Proof. vm_compute. repeat split; reflexivity. Qed.
